@@ -47,11 +47,11 @@ type spec struct {
 var moves = []string{"begin", "begin-immediate", "begin-exclusive", "write-small", "write-small", "write-spill", "cursor-open", "cursor-close", "r2-open", "r2-close", "commit", "commit", "rollback", "nothing",
 	// another handle of THIS process parks inside a row callback (holding the
 	// process' SHARED lock, which blocks the writer's commit) / lets go
-	"own-hold", "own-release",
+	"own-hold", "own-hold", "own-release",
 	// a third process write-locks the shared range without taking the PENDING
 	// byte first (what SQLite's unix-excl VFS does) / lets go
 	"raw-lock", "raw-unlock"}
-var reads = []string{"select", "select", "rowid", "indexed", "pk", "columns", "low-scan", "open-select"}
+var reads = []string{"select", "select", "rowid", "indexed", "pk", "columns", "low-scan", "open-select", "open-select"}
 
 func TestC07LockStates(t *testing.T) {
 	vt.Exec(t, vt.Check[spec]{
